@@ -187,6 +187,12 @@ class AsyncHTTP2Connection(AsyncConnectionInterface):
                     raise RemoteProtocolError(self._connection_terminated)
                 # If h2 raises a protocol error in some other state then we
                 # must somehow have made a protocol violation.
+                #
+                # The h2 state may already have moved on by then. (A header
+                # block that is refused half way has updated the header
+                # compression state that all streams share, although it is
+                # never sent.) Don't put further requests on this connection.
+                self._connection_error = True
                 raise LocalProtocolError(exc)  # pragma: nocover
 
             raise exc
